@@ -60,6 +60,96 @@ def extra(res, rnd, cases):
     res.extra['merged_vs_solo_views'] = n
 
 
+def sink_sequences(res, rnd):
+    """open/message/close sequences on the connection-id interface (ConnectionIDSink) driven directly:
+    re-opening a live id, messages right after a re-open, closing unknown ids, messages to closed ids"""
+    import common
+    import implenv
+    import implgdb_free as ig
+    n = 250 if res.tier == 'quick' else 8000
+    cases = []
+    for _ in range(n):
+        ids = ['x', 'y', 'z'][: rnd.choice([1, 2, 3])]
+        lanes = {i: world_lane(rnd) for i in ids}
+        pos = {i: 0 for i in ids}
+        is_open = {i: False for i in ids}
+        t = 1000000
+        evs = []
+        for _k in range(rnd.choice([6, 15, 30])):
+            i = rnd.choice(ids)
+            r = rnd.random()
+            if r < 0.15:
+                evs.append(['close', i])
+                is_open[i] = False
+                lanes[i] = world_lane(rnd)
+                pos[i] = 0
+            elif r < 0.3 or not is_open[i]:
+                if rnd.random() < 0.9 or is_open[i]:
+                    evs.append(['open', i, rnd.choice([[], [0], [1]])])
+                    is_open[i] = True
+                    lanes[i] = world_lane(rnd)
+                    pos[i] = 0
+                else:
+                    pm = list(lanes[i][0]) if lanes[i] else None
+                    if pm:
+                        pm[0] = t
+                        evs.append(['smsg', i, pm])      # message to an id that is not open: refused
+            else:
+                if pos[i] < len(lanes[i]):
+                    pm = list(lanes[i][pos[i]])
+                    pos[i] += 1
+                    t += rnd.choice([0, 10, 1000, 1500000])
+                    pm[0] = t
+                    evs.append(['smsg', i, pm])
+        if rnd.random() < 0.1:
+            evs.append(['open', '', []])
+        cases.append(dict(config=[None, None, 0, 1, 0], events=evs))
+    margs = [[sessioncheck.mcfg(c['config']), c['events']] for c in cases]
+    mres = common.model_eval('session', margs)
+    import gdbcheck
+    import implsession
+    for c, m in zip(cases, mres):
+        res.evaluations += 1
+        if m[0] != 'ok':
+            res.disagree('model entry failed', c, m, None, sig={'category': 'model'})
+            continue
+        try:
+            iouts, ifinal = ig.run_sink(c)
+        except Exception as e:
+            res.disagree('sink sequence raised', c['events'], None, repr(e), sig={'category': 'sink-exception'})
+            continue
+        bad = None
+        for k, (mo, io, ev) in enumerate(zip(m[1], iouts, c['events'])):
+            r = implsession.compare_outs(mo, io)
+            if r == 'oom':
+                bad = 'oom'
+                break
+            if r:
+                bad = 'event %d %r: model %r impl %r' % (k, ev, mo, io)
+                break
+        if bad == 'oom':
+            res.out_of_model += 1
+            continue
+        diffs = [d for d in sessioncheck.diff_final(m[2], ifinal)] if not bad else []
+        if bad or diffs:
+            res.disagree('open/message/close sequence on the connection-id interface differs from the model', c['events'], None,
+                         bad or diffs[0][1][:1500], sig={'category': 'sink-interface', 'detail': (bad or diffs[0][0])[:200]},
+                         theorem='C04_open_is_fresh / C04_isolation')
+        else:
+            res.nontriv(('sink', repr(c['events'])))
+    res.extra['sink_interface_sequences'] = len(cases)
+
+
+def world_lane(rnd):
+    import gdbcheck
+    return gdbcheck.gen_lifetime(rnd, rnd.choice([3, 8]))
+
+
+def extra_all(res, rnd, cases):
+    extra(res, rnd, cases)
+    sink_sequences(res, rnd)
+
+
 INFO, run, replay = sessprop.make(
     'C04', ['final.conn.meta', 'final.conns', 'out.eof', 'out.msg', 'out.cmd:connection', 'out.cmd:c', 'out.cmd:conn', 'final.conn.count',
             'final.conn.objects.ident', 'final.conn.objects.life', 'final.conn.msgs.refs', 'final.conn.title', 'final.ctrl.current'],
@@ -68,4 +158,4 @@ INFO, run, replay = sessprop.make(
      'isolation is proved per step (a line tagged X leaves every connection with another identifier untouched; what happens to X depends on X\'s state and the message only); it does not cover the decoder shut-down path (an AssertionError in one connection stops decoding for all), which well-formed histories never take'],
     'C04_names_sequential / C04_isolation / C04_open_is_fresh', gen, nontriv,
     'generated interleavings of 2-4 tagged connections (30-80 lines) allocating the same low object ids independently; non-trivial = at least two connections; distinct by input',
-    extra=extra)
+    extra=extra_all)
